@@ -43,6 +43,7 @@ import (
 	"go/token"
 	"go/types"
 	"os"
+	"path/filepath"
 	"sort"
 	"strings"
 )
@@ -202,17 +203,34 @@ func (c *szCond) text() string {
 
 // ---------------------------------------------------------------- state
 
-type szState struct {
-	epoch map[types.Object]int
-	facts []*szCond
+// ekey: what carries an epoch — a local variable (f == "", !all), one field under a variable (f = position of the field's
+// declaration: every path under the variable that goes through that field), or all written fields under a variable (all).
+type ekey struct {
+	o   types.Object
+	f   string
+	all bool
 }
 
+func rk(o types.Object) ekey { return ekey{o: o} }
+
+type szState struct {
+	epoch  map[ekey]int
+	facts  []*szCond
+	fpaths map[ekey][]ast.Expr // the field paths assigned under a field key (their values are joined at merges)
+}
+
+func newState() *szState { return &szState{epoch: map[ekey]int{}, fpaths: map[ekey][]ast.Expr{}} }
+
 func (s *szState) clone() *szState {
-	m := make(map[types.Object]int, len(s.epoch))
+	m := make(map[ekey]int, len(s.epoch))
 	for k, v := range s.epoch {
 		m[k] = v
 	}
-	return &szState{epoch: m, facts: s.facts[:len(s.facts):len(s.facts)]}
+	fp := make(map[ekey][]ast.Expr, len(s.fpaths))
+	for k, v := range s.fpaths {
+		fp[k] = v[:len(v):len(v)]
+	}
+	return &szState{epoch: m, facts: s.facts[:len(s.facts):len(s.facts)], fpaths: fp}
 }
 
 func (s *szState) add(c *szCond) {
@@ -243,6 +261,7 @@ type szSite struct {
 	Goal  string   `json:"goal"`  // readable
 	Vars  []string `json:"vars"`  // names of the IR variables, by index
 	Conds []string `json:"conds"` // readable
+	Flows []string `json:"flows_into,omitempty"`
 	goal  *szCond
 	conds []*szCond
 }
@@ -256,16 +275,23 @@ type szWalker struct {
 	nonneg    map[types.Object]bool
 	lower     map[types.Object]int64 // v >= lower[v] for the variables of nonneg
 	elemSet   map[types.Object]bool  // an element x[i]… under this variable is assigned somewhere in the function
+	volFields map[ekey]bool          // fields (or all written fields) under a variable that a function literal can change at any time
 	nassign   map[types.Object]int
 	counter   int
 	sites     *[]szSite
 	accessors map[*types.Func]string
+	loops     *[]szLoop
+	loopSites *[]szSite
+	convs     *[]*szConv
+	stack     []*szLoopCtx // the loops around the statement being walked (innermost last)
+	label     string       // label of the statement about to be walked
+	convOf    map[string]*szConv
 }
 
 func (w *szWalker) fresh() int { w.counter++; return w.counter }
 
 func (w *szWalker) epochOf(o types.Object, st *szState) int {
-	if e, ok := st.epoch[o]; ok {
+	if e, ok := st.epoch[rk(o)]; ok {
 		return e
 	}
 	if e, ok := w.init[o]; ok {
@@ -276,7 +302,39 @@ func (w *szWalker) epochOf(o types.Object, st *szState) int {
 	return e
 }
 
-func (w *szWalker) bump(o types.Object, st *szState) { st.epoch[o] = w.fresh() }
+func (w *szWalker) bump(o types.Object, st *szState) { st.epoch[rk(o)] = w.fresh() }
+
+func (w *szWalker) bumpKey(k ekey, st *szState) { st.epoch[k] = w.fresh() }
+
+// fieldEpoch: the epoch of a written field under a variable (0: never forgotten since the variable got its value)
+func fieldEpoch(root types.Object, f string, st *szState) int {
+	a, b := st.epoch[ekey{o: root, f: f}], st.epoch[ekey{o: root, all: true}]
+	if a > b {
+		return a
+	}
+	return b
+}
+
+func sortedKeys(m map[ekey]bool) []ekey {
+	out := make([]ekey, 0, len(m))
+	for k := range m {
+		out = append(out, k)
+	}
+	sort.Slice(out, func(i, j int) bool {
+		a, b := out[i], out[j]
+		if a.o.Pos() != b.o.Pos() {
+			return a.o.Pos() < b.o.Pos()
+		}
+		if a.o.Name() != b.o.Name() {
+			return a.o.Name() < b.o.Name()
+		}
+		if a.all != b.all {
+			return b.all
+		}
+		return a.f < b.f
+	})
+	return out
+}
 
 func (w *szWalker) freshVar(hint string) *szExpr {
 	return szV(fmt.Sprintf("?%s#%d", hint, w.fresh()))
@@ -338,7 +396,21 @@ func (w *szWalker) pureName(e ast.Expr, st *szState) (string, bool) {
 	case *ast.SelectorExpr:
 		if sel := w.p.Info.Selections[x]; sel != nil && sel.Kind() == types.FieldVal {
 			n, ok := w.pureName(x.X, st)
-			return n + "." + x.Sel.Name, ok
+			if !ok {
+				return "", false
+			}
+			name := n + "." + x.Sel.Name
+			if fv, isVar := sel.Obj().(*types.Var); isVar && szMutable[fieldKey(fv)] {
+				if root := w.rootObj(x); root != nil {
+					if w.volFields[ekey{o: root, f: fieldKey(fv)}] || w.volFields[ekey{o: root, all: true}] {
+						return "", false
+					}
+					if e := fieldEpoch(root, fieldKey(fv), st); e > 0 {
+						name += fmt.Sprintf("@%d", e)
+					}
+				}
+			}
+			return name, true
 		}
 	case *ast.IndexExpr:
 		if o := w.rootObj(x.X); o != nil && w.elemSet[o] {
@@ -479,6 +551,22 @@ func (w *szWalker) intExpr(e ast.Expr, st *szState) *szExpr {
 			if b.op == "c" {
 				return &szExpr{op: "*", k: b.k, a: a}
 			}
+		case token.QUO, token.REM:
+			// a / c, a % c with a positive constant c: truncated division, linearised
+			b := w.intExpr(x.Y, st)
+			if b.op != "c" || b.k <= 0 || b.k > 1<<31 {
+				break
+			}
+			a := w.intExpr(x.X, st)
+			q := w.freshVar("quo")
+			cq := &szExpr{op: "*", k: b.k, a: q}
+			st.add(szOr(
+				szAnd(szCmp("le", szC(0), a), szAnd(szCmp("le", cq, a), szCmp("lt", a, szBin("+", cq, szC(b.k))))),
+				szAnd(szCmp("lt", a, szC(0)), szAnd(szCmp("le", a, cq), szCmp("lt", szBin("-", cq, szC(b.k)), a)))))
+			if x.Op == token.QUO {
+				return q
+			}
+			return szBin("-", a, cq)
 		}
 	case *ast.CallExpr:
 		if len(x.Args) == 1 && w.isBuiltin(x.Fun, "len") {
@@ -488,8 +576,8 @@ func (w *szWalker) intExpr(e ast.Expr, st *szState) *szExpr {
 			return w.capAtom(x.Args[0], st)
 		}
 		if tv, ok := w.p.Info.Types[x.Fun]; ok && tv.IsType() && len(x.Args) == 1 { // conversion
-			if isIntType(tv.Type) && isIntType(w.typeOf(x.Args[0])) {
-				return w.intExpr(x.Args[0], st)
+			if isIntType(tv.Type) {
+				return w.conversion(x, tv.Type, st)
 			}
 			return w.freshVar("conv")
 		}
@@ -547,6 +635,9 @@ func (w *szWalker) cond(e ast.Expr, st *szState, pos bool) *szCond {
 			return szAnd(w.cond(x.X, st, false), w.cond(x.Y, st, false))
 		case token.EQL, token.NEQ, token.LSS, token.LEQ, token.GTR, token.GEQ:
 			if !isIntType(w.typeOf(x.X)) || !isIntType(w.typeOf(x.Y)) {
+				if isFloatType(w.typeOf(x.X)) || isFloatType(w.typeOf(x.Y)) {
+					return w.floatCond(x, st, pos)
+				}
 				return szTT
 			}
 			op := x.Op
@@ -570,6 +661,13 @@ func (w *szWalker) cond(e ast.Expr, st *szState, pos bool) *szCond {
 			}
 		}
 	}
+	if c, ok := e.(*ast.CallExpr); ok && len(c.Args) == 1 && w.pkgFunc(c.Fun, "math", "IsNaN") {
+		f := w.floatExpr(c.Args[0], st)
+		if pos {
+			return szCmp("eq", f.nan, szC(1))
+		}
+		return szCmp("eq", f.nan, szC(0))
+	}
 	return szTT
 }
 
@@ -588,20 +686,27 @@ func (w *szWalker) emit(pos token.Pos, kind, expr, what string, goal *szCond, st
 			return
 		}
 	}
-	// cone of influence
+	*w.sites = append(*w.sites, w.mkSite(pos, kind, expr, what, goal, st.facts))
+}
+
+// cone: the facts that share a variable, transitively, with the goal.
+func cone(goal *szCond, facts []*szCond) ([]bool, map[string]bool) {
 	vs := map[string]bool{}
 	goal.vars(vs)
-	used := make([]bool, len(st.facts))
+	used := make([]bool, len(facts))
+	fvs := make([]map[string]bool, len(facts))
+	for i, f := range facts {
+		fvs[i] = map[string]bool{}
+		f.vars(fvs[i])
+	}
 	for changed := true; changed; {
 		changed = false
-		for i, f := range st.facts {
+		for i := range facts {
 			if used[i] {
 				continue
 			}
-			fv := map[string]bool{}
-			f.vars(fv)
 			hit := false
-			for v := range fv {
+			for v := range fvs[i] {
 				if vs[v] {
 					hit = true
 					break
@@ -610,22 +715,13 @@ func (w *szWalker) emit(pos token.Pos, kind, expr, what string, goal *szCond, st
 			if hit {
 				used[i] = true
 				changed = true
-				for v := range fv {
+				for v := range fvs[i] {
 					vs[v] = true
 				}
 			}
 		}
 	}
-	s := szSite{File: w.file, Fn: w.fn, Line: lineOf(pos), Kind: kind, Expr: expr, What: what, goal: goal, Goal: goal.text()}
-	seen := map[string]bool{}
-	for i, f := range st.facts {
-		if used[i] && !seen[f.text()] {
-			seen[f.text()] = true
-			s.conds = append(s.conds, f)
-			s.Conds = append(s.Conds, f.text())
-		}
-	}
-	*w.sites = append(*w.sites, s)
+	return used, vs
 }
 
 func arithmetic(e ast.Expr) bool {
@@ -742,7 +838,8 @@ func (w *szWalker) siteCall(x *ast.CallExpr, st *szState) {
 	}
 }
 
-// callEffects: a call may change what hangs under a pointer / interface / struct / map variable it gets.
+// callEffects: a call forgets the fields its callee can write (writes.go) under every pointer / interface / struct / map
+// variable it gets as receiver or argument — everything written anywhere when the callee is a function value.
 func (w *szWalker) callEffects(x *ast.CallExpr, st *szState) {
 	if tv, ok := w.p.Info.Types[x.Fun]; ok && (tv.IsType() || tv.IsBuiltin()) {
 		if w.isBuiltin(x.Fun, "copy") || w.isBuiltin(x.Fun, "delete") || w.isBuiltin(x.Fun, "clear") {
@@ -756,6 +853,21 @@ func (w *szWalker) callEffects(x *ast.CallExpr, st *szState) {
 			}
 		}
 		return
+	}
+	fields, anything := writesOf(w.p.Info, x)
+	var names []string
+	for f := range fields {
+		names = append(names, f)
+	}
+	sort.Strings(names)
+	forget := func(o types.Object) {
+		if anything {
+			w.bumpKey(ekey{o: o, all: true}, st)
+			return
+		}
+		for _, f := range names {
+			w.bumpKey(ekey{o: o, f: f}, st)
+		}
 	}
 	touch := func(e ast.Expr) {
 		if u, ok := e.(*ast.UnaryExpr); ok && u.Op == token.AND {
@@ -778,18 +890,29 @@ func (w *szWalker) callEffects(x *ast.CallExpr, st *szState) {
 		case *types.Basic:
 			return
 		case *types.Slice:
-			// elements may change; the caller's length and capacity cannot — unless the slice is a field reached through a pointer
-			// root that the callee also holds; the root itself is what was passed only if e is the root
+			// elements may change; the caller's length and capacity cannot
+			return
+		case *types.Map, *types.Chan:
+			w.bump(o, st) // len changes
 			return
 		}
-		w.bump(o, st)
+		forget(o)
 	}
 	if sel, ok := x.Fun.(*ast.SelectorExpr); ok {
 		if s := w.p.Info.Selections[sel]; s != nil && s.Kind() == types.MethodVal {
-			if _, isAcc := w.accessors[s.Obj().(*types.Func)]; !isAcc {
-				// a method: its receiver (pointer receivers are taken by address implicitly)
-				if o := w.rootObj(sel.X); o != nil {
+			if o := w.rootObj(sel.X); o != nil {
+				switch w.typeOf(sel.X).Underlying().(type) {
+				case *types.Slice, *types.Basic:
+					// a method of a named slice / basic type: a pointer receiver can replace the value itself
+					if sig, ok := s.Obj().Type().(*types.Signature); ok && sig.Recv() != nil {
+						if _, ptr := sig.Recv().Type().(*types.Pointer); ptr {
+							w.bump(o, st)
+						}
+					}
+				case *types.Map, *types.Chan:
 					w.bump(o, st)
+				default:
+					forget(o)
 				}
 			}
 		}
@@ -859,15 +982,62 @@ func (w *szWalker) scan(e ast.Expr, st *szState) {
 	}
 }
 
-// assignedIn: the local variables assigned (or declared, or ranged over) anywhere in the nodes, literals included.
-func (w *szWalker) assignedIn(nodes ...ast.Node) map[types.Object]bool {
-	out := map[types.Object]bool{}
+// fieldTarget: lhs is a pure field path x.a.b (no index on the way): its variable and its last field
+func (w *szWalker) fieldTarget(lhs ast.Expr) (types.Object, string, bool) {
+	sel, ok := ast.Unparen(lhs).(*ast.SelectorExpr)
+	if !ok {
+		return nil, "", false
+	}
+	s := w.p.Info.Selections[sel]
+	if s == nil || s.Kind() != types.FieldVal {
+		return nil, "", false
+	}
+	fv, isVar := s.Obj().(*types.Var)
+	if !isVar {
+		return nil, "", false
+	}
+	// everything in front of the last field: identifiers, fields, dereferences
+	e := sel.X
+	for {
+		switch x := e.(type) {
+		case *ast.ParenExpr:
+			e = x.X
+			continue
+		case *ast.StarExpr:
+			e = x.X
+			continue
+		case *ast.SelectorExpr:
+			if s2 := w.p.Info.Selections[x]; s2 == nil || s2.Kind() != types.FieldVal {
+				return nil, "", false
+			}
+			e = x.X
+			continue
+		case *ast.Ident:
+			o := w.rootObj(x)
+			if o == nil {
+				return nil, "", false
+			}
+			return o, fieldKey(fv), true
+		}
+		return nil, "", false
+	}
+}
+
+// assignedIn: what is assigned (or declared, or ranged over, or forgotten by a call) anywhere in the nodes, literals included.
+func (w *szWalker) assignedIn(nodes ...ast.Node) map[ekey]bool {
+	out := map[ekey]bool{}
 	mark := func(e ast.Expr) {
 		if o := w.rootObj(e); o != nil {
-			if _, plain := ast.Unparen(e).(*ast.Ident); !plain && isElemAssign(w, e) && w.elemSet[o] {
-				return
+			if _, plain := ast.Unparen(e).(*ast.Ident); !plain {
+				if isElemAssign(w, e) && w.elemSet[o] {
+					return
+				}
+				if r, f, ok := w.fieldTarget(e); ok {
+					out[ekey{o: r, f: f}] = true
+					return
+				}
 			}
-			out[o] = true
+			out[rk(o)] = true
 		}
 	}
 	for _, n := range nodes {
@@ -894,17 +1064,19 @@ func (w *szWalker) assignedIn(nodes ...ast.Node) map[types.Object]bool {
 					mark(id)
 				}
 			case *ast.CallExpr:
-				// calls forget what hangs under their receiver / pointer arguments: a loop with such a call changes them
-				st := &szState{epoch: map[types.Object]int{}}
+				// what the calls forget
+				st := newState()
 				before := w.counter
 				w.callEffects(x, st)
 				w.counter = before
-				for o := range st.epoch {
-					out[o] = true
+				for k := range st.epoch {
+					out[k] = true
 				}
 			case *ast.UnaryExpr:
 				if x.Op == token.AND {
-					mark(x.X)
+					if o := w.rootObj(x.X); o != nil {
+						out[rk(o)] = true
+					}
 				}
 			}
 			return true
@@ -934,7 +1106,7 @@ func (w *szWalker) funcLit(x *ast.FuncLit, st *szState) {
 			w.bump(o, in)
 		}
 	}
-	// everything that hangs under a pointer may have changed by the time the literal runs
+	// everything that hangs under a pointer may have changed by the time the literal runs (fields never written keep their value)
 	forget := func(o types.Object) bool {
 		if _, basic := o.Type().Underlying().(*types.Basic); basic {
 			return false
@@ -942,22 +1114,29 @@ func (w *szWalker) funcLit(x *ast.FuncLit, st *szState) {
 		_, isSlice := o.Type().Underlying().(*types.Slice)
 		return !isSlice
 	}
-	for _, o := range sortedObjs(in.epoch) {
-		if forget(o) {
-			w.bump(o, in)
+	roots := map[types.Object]bool{}
+	for k := range in.epoch {
+		roots[k.o] = true
+	}
+	for o := range w.init {
+		roots[o] = true
+	}
+	for _, o := range sortedObjs(roots) {
+		if forget(o) && w.nassign[o] <= 1 {
+			switch o.Type().Underlying().(type) {
+			case *types.Map, *types.Chan:
+				w.bump(o, in)
+			default:
+				w.bumpKey(ekey{o: o, all: true}, in)
+			}
 		}
 	}
-	for _, o := range sortedObjs(w.init) {
-		if _, done := in.epoch[o]; !done && forget(o) {
-			w.bump(o, in)
-		}
-	}
-	saved := w.fn
-	w.fn = saved + "/func"
+	saved, savedStack := w.fn, w.stack
+	w.fn, w.stack = saved+"/func", nil
 	w.block(x.Body.List, in)
-	w.fn = saved
-	for _, o := range sortedObjs(w.assignedIn(x.Body)) {
-		w.bump(o, st)
+	w.fn, w.stack = saved, savedStack
+	for _, k := range sortedKeys(w.assignedIn(x.Body)) {
+		w.bumpKey(k, st)
 	}
 }
 
@@ -1063,6 +1242,64 @@ func isElemAssign(w *szWalker, lhs ast.Expr) bool {
 	return k == "slice" || k == "array"
 }
 
+// assignField: x.a.b = rhs on a pure field path: only that field (under x) gets a new epoch; an integer / float value and a
+// string / slice length are remembered under the new name.
+func (w *szWalker) assignField(lhs, rhs ast.Expr, op token.Token, st *szState) bool {
+	r, f, ok := w.fieldTarget(lhs)
+	if !ok || w.volatile[r] {
+		return false
+	}
+	pre := st.clone()
+	t := w.typeOf(lhs)
+	var val *szExpr
+	var fval *szFloat
+	var ln *szExpr
+	if rhs != nil {
+		switch {
+		case isIntType(t):
+			switch op {
+			case token.ASSIGN, token.DEFINE:
+				val = w.intExpr(rhs, pre)
+			case token.ADD_ASSIGN:
+				val = szBin("+", w.intExpr(lhs, pre), w.intExpr(rhs, pre))
+			case token.SUB_ASSIGN:
+				val = szBin("-", w.intExpr(lhs, pre), w.intExpr(rhs, pre))
+			case token.INC:
+				val = szBin("+", w.intExpr(lhs, pre), szC(1))
+			case token.DEC:
+				val = szBin("-", w.intExpr(lhs, pre), szC(1))
+			}
+		case isFloatType(t) && op == token.ASSIGN:
+			fval = w.floatExpr(rhs, pre)
+		case op == token.ASSIGN:
+			if k := w.seqKind(lhs); k == "string" || k == "slice" {
+				ln = w.lenOfRHS(rhs, pre)
+			}
+		}
+	}
+	k := ekey{o: r, f: f}
+	w.bumpKey(k, st)
+	addPath(st, k, lhs)
+	name, named := w.pureName(lhs, st)
+	if !named {
+		return true
+	}
+	st.facts = pre.facts[:len(pre.facts):len(pre.facts)]
+	switch {
+	case val != nil:
+		st.add(szCmp("eq", szV(name), val))
+	case fval != nil:
+		nv := w.floatVars(name, st)
+		st.add(szCmp("eq", nv.nan, fval.nan))
+		st.add(szCmp("eq", nv.fl, fval.fl))
+	case ln != nil:
+		v := szV("len(" + name + ")")
+		st.add(szCmp("le", szC(0), v))
+		st.add(szCmp("eq", v, ln))
+	}
+	return true
+}
+
 // assign: lhs = rhs (rhs == nil: unknown value).  `pre` is the state before the statement.
 func (w *szWalker) assignOne(lhs ast.Expr, rhs ast.Expr, op token.Token, st *szState) {
 	if id, ok := lhs.(*ast.Ident); ok && id.Name == "_" {
@@ -1074,6 +1311,9 @@ func (w *szWalker) assignOne(lhs ast.Expr, rhs ast.Expr, op token.Token, st *szS
 	}
 	if _, plain := ast.Unparen(lhs).(*ast.Ident); !plain || w.volatile[o] {
 		if !plain && isElemAssign(w, lhs) && w.elemSet[o] {
+			return
+		}
+		if !plain && w.assignField(lhs, rhs, op, st) {
 			return
 		}
 		w.bump(o, st)
@@ -1091,8 +1331,19 @@ func (w *szWalker) assignOne(lhs ast.Expr, rhs ast.Expr, op token.Token, st *szS
 			val = szBin("-", w.intExpr(lhs, pre), w.intExpr(rhs, pre))
 		}
 	}
+	var fval *szFloat
+	if isFloatType(o.Type()) && rhs != nil && (op == token.ASSIGN || op == token.DEFINE) {
+		fval = w.floatExpr(rhs, pre)
+	}
 	w.bump(o, st)
 	name, _ := w.pureName(lhs, st)
+	if fval != nil {
+		st.facts = pre.facts[:len(pre.facts):len(pre.facts)]
+		nv := w.floatVars(name, st)
+		st.add(szCmp("eq", nv.nan, fval.nan))
+		st.add(szCmp("eq", nv.fl, fval.fl))
+		return
+	}
 	if val != nil {
 		st.facts = pre.facts[:len(pre.facts):len(pre.facts)]
 		st.add(szCmp("eq", szV(name), val))
@@ -1125,7 +1376,29 @@ func (w *szWalker) block(list []ast.Stmt, st *szState) (*szState, bool) {
 	return st, false
 }
 
+// relevant: the facts of a list that share a variable, transitively, with the named one.
+func relevant(facts []*szCond, name string) []*szCond {
+	used, _ := cone(szCmp("le", szV(name), szV(name)), facts)
+	var out []*szCond
+	for i, f := range facts {
+		if used[i] {
+			out = append(out, f)
+		}
+	}
+	return out
+}
+
 // merge: the state behind a branching statement whose open ends are `ends` (all started as clones of pre).
+func addPath(st *szState, k ekey, e ast.Expr) {
+	t := exprText(e)
+	for _, p := range st.fpaths[k] {
+		if exprText(p) == t {
+			return
+		}
+	}
+	st.fpaths[k] = append(st.fpaths[k][:len(st.fpaths[k]):len(st.fpaths[k])], e)
+}
+
 func (w *szWalker) merge(node ast.Node, pre *szState, ends []*szState) (*szState, bool) {
 	if len(ends) == 0 {
 		return pre, true
@@ -1134,111 +1407,114 @@ func (w *szWalker) merge(node ast.Node, pre *szState, ends []*szState) (*szState
 		return ends[0], false
 	}
 	out := pre.clone()
-	changed := map[types.Object]bool{}
+	changed := map[ekey]bool{}
 	for _, b := range ends {
-		for o, e := range b.epoch {
-			if o.Pos() >= node.Pos() && o.Pos() <= node.End() {
+		for k, e := range b.epoch {
+			if k.o.Pos() >= node.Pos() && k.o.Pos() <= node.End() {
 				continue // declared inside: out of scope behind the statement
 			}
-			if w.epochOf(o, pre) != e {
-				changed[o] = true
+			was := pre.epoch[k]
+			if k.f == "" && !k.all {
+				was = w.epochOf(k.o, pre)
+			}
+			if was != e {
+				changed[k] = true
+			}
+		}
+		for k, ps := range b.fpaths {
+			for _, pe := range ps {
+				addPath(out, k, pe)
 			}
 		}
 	}
-	var objs []types.Object
-	for o := range changed {
-		objs = append(objs, o)
+	// what is joined: a variable, or a field path assigned under a changed field key; each with its name in a given state
+	type item struct {
+		nameIn func(st *szState) (string, bool)
+		typ    types.Type
+		obj    types.Object // the variable itself (nil for a path)
 	}
-	sort.Slice(objs, func(i, j int) bool { return objs[i].Pos() < objs[j].Pos() })
-	type eqn struct {
-		o types.Object
-		m int
+	var items []item
+	for _, k := range sortedKeys(changed) {
+		out.epoch[k] = w.fresh()
+		switch {
+		case k.all:
+		case k.f != "":
+			for _, pe := range out.fpaths[k] {
+				pe := pe
+				items = append(items, item{nameIn: func(st *szState) (string, bool) { return w.pureName(pe, st) }, typ: w.typeOf(pe)})
+			}
+		default:
+			if w.volatile[k.o] {
+				continue
+			}
+			o := k.o
+			items = append(items, item{nameIn: func(st *szState) (string, bool) { return fmt.Sprintf("%s#%d", o.Name(), w.epochOf(o, st)), true }, typ: o.Type(), obj: o})
+		}
 	}
-	var eqs []eqn
-	for _, o := range objs {
-		m := w.fresh()
-		out.epoch[o] = m
-		eqs = append(eqs, eqn{o, m})
-	}
-	// one disjunctive fact per changed variable: in every open end, the facts found inside that end which share a variable
-	// (transitively) with the variable's last epoch there, and new epoch = last epoch
-	for _, q := range eqs {
-		if w.volatile[q.o] {
+	// one disjunctive fact per joined value: in every open end, the facts found inside that end which share a variable
+	// (transitively) with the value's last name there, and new name = last name
+	for _, it := range items {
+		if it.typ == nil {
 			continue
 		}
-		kind := ""
-		if isIntType(q.o.Type()) {
-			kind = "int"
-		} else {
-			switch u := q.o.Type().Underlying().(type) {
+		var wraps []string
+		switch {
+		case isIntType(it.typ):
+			wraps = []string{""}
+		case isFloatType(it.typ):
+			wraps = []string{"nan", "fl"}
+		default:
+			switch u := it.typ.Underlying().(type) {
 			case *types.Slice:
-				kind = "len"
+				wraps = []string{"len"}
 			case *types.Basic:
 				if u.Info()&types.IsString != 0 {
-					kind = "len"
+					wraps = []string{"len"}
 				}
 			}
 		}
-		if kind == "" {
+		newBase, ok := it.nameIn(out)
+		if !ok {
 			continue
 		}
-		var disj *szCond
-		for _, b := range ends {
-			oldName := fmt.Sprintf("%s#%d", q.o.Name(), w.epochOf(q.o, b))
-			newName := fmt.Sprintf("%s#%d", q.o.Name(), q.m)
-			if kind == "len" {
-				oldName, newName = "len("+oldName+")", "len("+newName+")"
+		for _, wr := range wraps {
+			wrap := func(n string) string {
+				if wr == "" {
+					return n
+				}
+				return wr + "(" + n + ")"
 			}
-			vs := map[string]bool{oldName: true}
-			suffix := b.facts[len(pre.facts):]
-			used := make([]bool, len(suffix))
-			for again := true; again; {
-				again = false
-				for i, f := range suffix {
-					if used[i] {
-						continue
-					}
-					fv := map[string]bool{}
-					f.vars(fv)
-					for v := range fv {
-						if vs[v] {
-							used[i], again = true, true
-							break
-						}
-					}
-					if used[i] {
-						for v := range fv {
-							vs[v] = true
-						}
-					}
+			newName := wrap(newBase)
+			var disj *szCond
+			usable := true
+			for _, b := range ends {
+				ob, ok := it.nameIn(b)
+				if !ok {
+					usable = false
+					break
+				}
+				oldName := wrap(ob)
+				c := szAll(append(relevant(b.facts[len(pre.facts):], oldName), szCmp("eq", szV(newName), szV(oldName))))
+				if disj == nil {
+					disj = c
+				} else {
+					disj = szOr(disj, c)
 				}
 			}
-			var conj []*szCond
-			for i, f := range suffix {
-				if used[i] {
-					conj = append(conj, f)
+			if !usable || disj == nil {
+				continue
+			}
+			out.add(disj)
+			switch wr {
+			case "len":
+				out.add(szCmp("le", szC(0), szV(newName)))
+			case "nan":
+				out.add(szCmp("le", szC(0), szV(newName)))
+				out.add(szCmp("le", szV(newName), szC(1)))
+			case "":
+				if it.obj != nil && w.nonneg[it.obj] {
+					out.add(szCmp("le", szC(w.lower[it.obj]), szV(newName)))
 				}
-			}
-			conj = append(conj, szCmp("eq", szV(newName), szV(oldName)))
-			c := szAll(conj)
-			if disj == nil {
-				disj = c
-			} else {
-				disj = szOr(disj, c)
-			}
-		}
-		out.add(disj)
-	}
-	// lengths are non-negative whatever the branch
-	for _, q := range eqs {
-		switch u := q.o.Type().Underlying().(type) {
-		case *types.Slice:
-			out.add(szCmp("le", szC(0), szV(fmt.Sprintf("len(%s#%d)", q.o.Name(), q.m))))
-		case *types.Basic:
-			if u.Info()&types.IsString != 0 {
-				out.add(szCmp("le", szC(0), szV(fmt.Sprintf("len(%s#%d)", q.o.Name(), q.m))))
-			} else if isIntType(u) && w.nonneg[q.o] {
-				out.add(szCmp("le", szC(w.lower[q.o]), szV(fmt.Sprintf("%s#%d", q.o.Name(), q.m))))
 			}
 		}
 	}
@@ -1248,14 +1524,8 @@ func (w *szWalker) merge(node ast.Node, pre *szState, ends []*szState) (*szState
 // havoc: the state behind a statement that is not followed branch by branch.
 func (w *szWalker) havoc(pre *szState, nodes ...ast.Node) *szState {
 	out := pre.clone()
-	objs := w.assignedIn(nodes...)
-	var list []types.Object
-	for o := range objs {
-		list = append(list, o)
-	}
-	sort.Slice(list, func(i, j int) bool { return list[i].Pos() < list[j].Pos() })
-	for _, o := range list {
-		w.bump(o, out)
+	for _, k := range sortedKeys(w.assignedIn(nodes...)) {
+		w.bumpKey(k, out)
 	}
 	return out
 }
@@ -1321,7 +1591,10 @@ func (w *szWalker) stmt(s ast.Stmt, st *szState) (*szState, bool) {
 		w.scan(x.Call, st)
 		return st, false
 	case *ast.LabeledStmt:
-		return w.stmt(x.Stmt, st)
+		w.label = x.Label.Name
+		out, t := w.stmt(x.Stmt, st)
+		w.label = ""
+		return out, t
 	case *ast.ReturnStmt:
 		for _, r := range x.Results {
 			w.scan(r, st)
@@ -1330,6 +1603,9 @@ func (w *szWalker) stmt(s ast.Stmt, st *szState) (*szState, bool) {
 	case *ast.BranchStmt:
 		if x.Tok == token.GOTO {
 			fatal("sizefacts: %s:%d: goto has no rule", relFile(x.Pos()), lineOf(x.Pos()))
+		}
+		if x.Tok == token.CONTINUE {
+			w.noteContinue(x, st)
 		}
 		return st, true
 	case *ast.BlockStmt:
@@ -1353,7 +1629,9 @@ func (w *szWalker) stmt(s ast.Stmt, st *szState) (*szState, bool) {
 				st.add(szCmp("le", szC(w.lower[o]), szV(name)))
 			}
 		} else if !(isElemAssign(w, x.X) && w.elemSet[o]) {
-			w.bump(o, st)
+			if !w.assignField(x.X, x.X, x.Tok, st) {
+				w.bump(o, st)
+			}
 		}
 		return st, false
 	case *ast.DeclStmt:
@@ -1427,8 +1705,13 @@ func (w *szWalker) stmt(s ast.Stmt, st *szState) (*szState, bool) {
 					if o == nil {
 						continue
 					}
-					if _, plain := ast.Unparen(p.l).(*ast.Ident); !plain && isElemAssign(w, p.l) && w.elemSet[o] {
-						continue
+					if _, plain := ast.Unparen(p.l).(*ast.Ident); !plain {
+						if isElemAssign(w, p.l) && w.elemSet[o] {
+							continue
+						}
+						if w.assignField(p.l, nil, x.Tok, st) {
+							continue
+						}
 					}
 					w.bump(o, st)
 					if p.val != nil && !w.volatile[o] {
@@ -1539,27 +1822,38 @@ func (w *szWalker) stmt(s ast.Stmt, st *szState) (*szState, bool) {
 		}
 		return w.merge(x, st, ends)
 	case *ast.ForStmt:
+		label := w.label
+		w.label = ""
 		if x.Init != nil {
 			st, _ = w.stmt(x.Init, st)
 		}
 		head := w.havoc(st, x.Cond, x.Body, x.Post)
-		w.nonnegFacts(head)
 		if x.Cond != nil {
 			w.scan(x.Cond, head)
 		}
+		ctx := &szLoopCtx{node: x, label: label}
+		// the measures are read at the head (their variables have the epochs of the start of one iteration)
+		cands := w.loopMeasures(x, head)
 		body := head.clone()
 		if x.Cond != nil {
 			body.add(w.cond(x.Cond, body, true))
 		}
+		w.stack = append(w.stack, ctx)
 		end, t := w.block(x.Body.List, body)
-		if !t && x.Post != nil {
-			w.stmt(x.Post, end)
-		} else if x.Post != nil {
-			// reached by `continue`: the post statement runs in an unknown state of the loop's variables
-			w.stmt(x.Post, w.havoc(head, x.Body))
+		w.stack = w.stack[:len(w.stack)-1]
+		// the back edges: the end of the body and every `continue`, each followed by the post statement
+		var edges []*szState
+		if !t {
+			edges = append(edges, end)
 		}
+		edges = append(edges, ctx.continues...)
+		for i, e := range edges {
+			if x.Post != nil {
+				edges[i], _ = w.stmt(x.Post, e)
+			}
+		}
+		w.emitLoop(x, cands, edges)
 		out := w.havoc(st, x.Cond, x.Body, x.Post)
-		w.nonnegFacts(out)
 		return out, false
 	case *ast.RangeStmt:
 		w.scan(x.X, st)
@@ -1573,8 +1867,7 @@ func (w *szWalker) stmt(s ast.Stmt, st *szState) (*szState, bool) {
 			}
 		}
 		head := w.havoc(st, x.Body)
-		w.nonnegFacts(head)
-		for _, kv := range []ast.Expr{x.Key, x.Value} {
+				for _, kv := range []ast.Expr{x.Key, x.Value} {
 			if kv == nil {
 				continue
 			}
@@ -1591,7 +1884,10 @@ func (w *szWalker) stmt(s ast.Stmt, st *szState) (*szState, bool) {
 				}
 			}
 		}
+		w.stack = append(w.stack, &szLoopCtx{node: x, label: w.label})
+		w.label = ""
 		w.block(x.Body.List, head.clone())
+		w.stack = w.stack[:len(w.stack)-1]
 		out := w.havoc(st, x.Body)
 		for _, kv := range []ast.Expr{x.Key, x.Value} {
 			if kv != nil {
@@ -1600,15 +1896,11 @@ func (w *szWalker) stmt(s ast.Stmt, st *szState) (*szState, bool) {
 				}
 			}
 		}
-		w.nonnegFacts(out)
-		return out, false
+				return out, false
 	}
 	fatal("sizefacts: %s:%d: statement %T without a rule", relFile(s.Pos()), lineOf(s.Pos()), s)
 	return st, false
 }
-
-// nonnegFacts: nothing to add eagerly — the fact v >= 0 of a monotone counter is added where the variable is read (intExpr).
-func (w *szWalker) nonnegFacts(st *szState) {}
 
 func (w *szWalker) switchLike(node ast.Node, body *ast.BlockStmt, st *szState, clauseCond func(*ast.CaseClause, *szState, bool) *szCond) (*szState, bool) {
 	if breaksOut(body) {
@@ -1820,6 +2112,11 @@ func (w *szWalker) classify(fd *ast.FuncDecl) {
 					}
 					continue
 				}
+				if !plain {
+					if _, _, isField := w.fieldTarget(l); isField {
+						continue // the variable keeps its value; the field gets its own epoch
+					}
+				}
 				o := count(l)
 				if o == nil {
 					continue
@@ -1893,9 +2190,13 @@ func (w *szWalker) classify(fd *ast.FuncDecl) {
 	}
 	// assigned inside a literal, declared outside it
 	for _, l := range lits {
-		for o := range w.assignedIn(l.Body) {
-			if o.Pos() < l.Pos() || o.Pos() > l.End() {
-				w.volatile[o] = true
+		for k := range w.assignedIn(l.Body) {
+			if k.o.Pos() < l.Pos() || k.o.Pos() > l.End() {
+				if k.f == "" && !k.all {
+					w.volatile[k.o] = true
+				} else {
+					w.volFields[k] = true
+				}
 			}
 		}
 	}
@@ -1904,37 +2205,62 @@ func (w *szWalker) classify(fd *ast.FuncDecl) {
 	}
 }
 
-func sizeSites(p *Pkg) []szSite {
-	var sites []szSite
+type szResult struct {
+	Sizes     []szSite `json:"sizes"`
+	LoopSites []szSite `json:"loop_edges"`
+	Loops     []szLoop `json:"loops"`
+	ConvSites []szSite `json:"conversions"`
+	ConvAll   int      `json:"conversions_seen"`
+	ConvKinds map[string]int `json:"conversions_seen_by_kind"`
+}
+
+// generated by goyacc (their source is the grammar; goto / table loops): not walked
+var szSkipFiles = map[string]bool{"path_parser.go": true, "query_parser.go": true}
+
+func walkPackage(p *Pkg, res *szResult, sizes bool) {
 	acc := lengthAccessors(p)
 	for _, f := range p.Files {
+		if strings.HasSuffix(p.Path, "/lib/json") && szSkipFiles[filepath.Base(fset.PositionFor(f.Package, false).Filename)] {
+			continue
+		}
 		for _, d := range f.Decls {
 			fd, ok := d.(*ast.FuncDecl)
 			if !ok || fd.Body == nil {
 				continue
 			}
+			var sz []szSite
+			var convs []*szConv
 			w := &szWalker{p: p, fn: funcLabel(fd), file: relFile(fd.Pos()), init: map[types.Object]int{}, volatile: map[types.Object]bool{},
-				nonneg: map[types.Object]bool{}, lower: map[types.Object]int64{}, elemSet: map[types.Object]bool{}, nassign: map[types.Object]int{}, sites: &sites, accessors: acc}
+				nonneg: map[types.Object]bool{}, lower: map[types.Object]int64{}, elemSet: map[types.Object]bool{}, volFields: map[ekey]bool{}, nassign: map[types.Object]int{}, sites: &sz, accessors: acc,
+				loops: &res.Loops, loopSites: &res.LoopSites, convs: &convs, convOf: map[string]*szConv{}}
 			w.classify(fd)
-			w.block(fd.Body.List, &szState{epoch: map[types.Object]int{}})
+			w.block(fd.Body.List, newState())
+			if !sizes {
+				// only the loops of this package are kept: a conversion counts when it reaches one of them
+				for _, c := range convs {
+					var keep []string
+					for _, fl := range c.Flows {
+						if strings.Contains(fl, "back edge") {
+							keep = append(keep, fl)
+						}
+					}
+					c.Flows = keep
+				}
+			} else {
+				res.Sizes = append(res.Sizes, sz...)
+			}
+			res.ConvSites = append(res.ConvSites, w.convObligations()...)
+			res.ConvAll += len(convs)
+			for _, c := range convs {
+				res.ConvKinds[c.Kind]++
+			}
 		}
 	}
-	if len(sites) < 50 {
-		fatal("sizefacts: only %d size obligations found in %s", len(sites), p.Path)
-	}
-	return sites
 }
 
 // ---------------------------------------------------------------- output
 
-func writeSizeFacts(p *Pkg, leanPath, jsonPath string) {
-	sites := sizeSites(p)
-	var b strings.Builder
-	b.WriteString("-- GENERATED by /verif/extract/errfacts (sizefacts.go) from every function of lib/query — do not edit.\n")
-	b.WriteString("-- One entry per obligation of a size site (strings.Repeat / bytes.Repeat count, make length and capacity, arithmetic\n")
-	b.WriteString("-- index, slice bounds): the operand as integer IR, the facts that hold when control reaches the site, and the result of\n")
-	b.WriteString("-- the uniform tactic `size_decide` (unfold the evaluator, omega): `Proved.yes h` with h a proof for ALL valuations, or `Proved.no`.\n")
-	b.WriteString("import Csvq.Model.SizeFacts\nnamespace Csvq.Gen.Size\nopen Csvq.SizeFacts\n\n")
+func leanSites(b *strings.Builder, sites []szSite, prefix string) {
 	for i := range sites {
 		s := &sites[i]
 		idx := map[string]int{}
@@ -1951,33 +2277,95 @@ func writeSizeFacts(p *Pkg, leanPath, jsonPath string) {
 		for k, n := range names {
 			idx[n] = k
 		}
-		// stable, readable names: epochs renumbered in order of appearance
 		s.Vars = names
 		conds := make([]string, len(s.conds))
 		for k, c := range s.conds {
 			conds[k] = c.lean(idx)
 		}
-		fmt.Fprintf(&b, "def s%d : SizeSite := ⟨%s, %s, %s, %s, %s, %d,\n  [%s],\n  %s⟩\n", i, leanStr(s.File), leanStr(s.Fn), leanStr(s.Kind), leanStr(s.Expr), leanStr(s.What), len(names),
+		fmt.Fprintf(b, "def %ss%d : SizeSite := ⟨%s, %s, %s, %s, %s, %d,\n  [%s],\n  %s⟩\n", prefix, i, leanStr(s.File), leanStr(s.Fn), leanStr(s.Kind), leanStr(s.Expr), leanStr(s.What), len(names),
 			strings.Join(conds, ",\n   "), s.goal.lean(idx))
-		fmt.Fprintf(&b, "def p%d : Proved s%d.safe := by size_decide s%d\n\n", i, i, i)
+		fmt.Fprintf(b, "def %sp%d : Proved %ss%d.safe := by size_decide %ss%d\n\n", prefix, i, prefix, i, prefix, i)
 	}
-	b.WriteString("/-- every obligation with what the tactic found -/\ndef sizeEntries : List SizeEntry := [\n")
-	for i := range sites {
+}
+
+func leanEntries(b *strings.Builder, name, doc, prefix string, n int) {
+	fmt.Fprintf(b, "/-- %s -/\ndef %s : List SizeEntry := [\n", doc, name)
+	for i := 0; i < n; i++ {
 		sep := ","
-		if i == len(sites)-1 {
+		if i == n-1 {
 			sep = ""
 		}
-		fmt.Fprintf(&b, "  ⟨s%d, p%d⟩%s\n", i, i, sep)
+		fmt.Fprintf(b, "  ⟨%ss%d, %sp%d⟩%s\n", prefix, i, prefix, i, sep)
 	}
-	b.WriteString("]\n\nend Csvq.Gen.Size\n")
-	if err := os.WriteFile(leanPath, []byte(b.String()), 0o644); err != nil {
+	b.WriteString("]\n\n")
+}
+
+func writeFile(path, text string) {
+	if err := os.WriteFile(path, []byte(text), 0o644); err != nil {
 		fatal("%v", err)
 	}
-	js, err := json.MarshalIndent(sites, "", " ")
+}
+
+// writeSizeFacts: Csvq/Gen/SizeFacts.lean, LoopFacts.lean, IntConvFacts.lean and sizefacts.json into dir.
+func writeSizeFacts(pkgs []*Pkg, dir string) {
+	res := &szResult{ConvKinds: map[string]int{}}
+	computeWrites(pkgs, modulePath(repoRoot()))
+	walkPackage(findPkg(pkgs, "/lib/query"), res, true)
+	walkPackage(findPkg(pkgs, "/lib/value"), res, false)
+	walkPackage(findPkg(pkgs, "/lib/json"), res, false)
+	if len(res.Sizes) < 50 || len(res.Loops) < 20 {
+		fatal("sizefacts: only %d size obligations / %d loops found", len(res.Sizes), len(res.Loops))
+	}
+	var b strings.Builder
+	b.WriteString("-- GENERATED by /verif/extract/errfacts (sizefacts.go) from every function of lib/query — do not edit.\n")
+	b.WriteString("-- One entry per obligation of a size site (strings.Repeat / bytes.Repeat count, make length and capacity, arithmetic\n")
+	b.WriteString("-- index, slice bounds): the operand as integer IR, the facts that hold when control reaches the site, and the result of\n")
+	b.WriteString("-- the uniform tactic `size_decide` (unfold the evaluator, omega): `Proved.yes h` with h a proof for ALL valuations, or `Proved.no`.\n")
+	b.WriteString("import Csvq.Model.SizeFacts\nnamespace Csvq.Gen.Size\nopen Csvq.SizeFacts\n\n")
+	leanSites(&b, res.Sizes, "")
+	leanEntries(&b, "sizeEntries", "every obligation with what the tactic found", "", len(res.Sizes))
+	b.WriteString("end Csvq.Gen.Size\n")
+	writeFile(dir+"/SizeFacts.lean", b.String())
+
+	b.Reset()
+	b.WriteString("-- GENERATED by /verif/extract/errfacts (loopfacts.go) from every for statement (range loops aside) of lib/query, lib/value, lib/json\n")
+	b.WriteString("-- (the goyacc output of lib/json aside) — do not edit.  One entry per (measure, back edge): under the facts of that path of one\n")
+	b.WriteString("-- iteration, measure' < measure and 0 <= measure; `loopSites`: per loop its candidate measures with the numbers of their entries.\n")
+	b.WriteString("import Csvq.Model.SizeFacts\nnamespace Csvq.Gen.Loop\nopen Csvq.SizeFacts\n\n")
+	leanSites(&b, res.LoopSites, "")
+	leanEntries(&b, "loopEntries", "every (measure, back edge) obligation with what the tactic found", "", len(res.LoopSites))
+	b.WriteString("/-- every loop: file, function, header, number of back edges, candidate measures (text, entries of its back edges) -/\ndef loopSites : List LoopSite := [\n")
+	for i, l := range res.Loops {
+		var ms []string
+		for _, m := range l.Measures {
+			var es []string
+			for _, e := range m.Edges {
+				es = append(es, fmt.Sprint(e))
+			}
+			ms = append(ms, fmt.Sprintf("(%s, [%s])", leanStr(m.Text), strings.Join(es, ", ")))
+		}
+		sep := ","
+		if i == len(res.Loops)-1 {
+			sep = ""
+		}
+		fmt.Fprintf(&b, "  ⟨%s, %s, %s, %d, [%s]⟩%s\n", leanStr(l.File), leanStr(l.Fn), leanStr(l.Header), l.Edges, strings.Join(ms, ", "), sep)
+	}
+	b.WriteString("]\n\nend Csvq.Gen.Loop\n")
+	writeFile(dir+"/LoopFacts.lean", b.String())
+
+	b.Reset()
+	b.WriteString("-- GENERATED by /verif/extract/errfacts (loopfacts.go) — do not edit.  One entry per float -> integer or narrowing integer\n")
+	b.WriteString("-- conversion whose result reaches a size obligation or a loop obligation of the same function: under the facts at the\n")
+	b.WriteString("-- conversion, the operand is a number (nan = 0) inside the range of the target type.\n")
+	b.WriteString("import Csvq.Model.SizeFacts\nnamespace Csvq.Gen.IntConv\nopen Csvq.SizeFacts\n\n")
+	leanSites(&b, res.ConvSites, "")
+	leanEntries(&b, "convEntries", "every conversion obligation with what the tactic found", "", len(res.ConvSites))
+	b.WriteString("end Csvq.Gen.IntConv\n")
+	writeFile(dir+"/IntConvFacts.lean", b.String())
+
+	js, err := json.MarshalIndent(res, "", " ")
 	if err != nil {
 		fatal("%v", err)
 	}
-	if err := os.WriteFile(jsonPath, js, 0o644); err != nil {
-		fatal("%v", err)
-	}
+	writeFile(dir+"/sizefacts.json", string(js))
 }
